@@ -1536,6 +1536,14 @@ func (e *Engine) loadGlobal(st *State, g *ssa.Global) Val {
 	case "encoding/binary.LittleEndian", "encoding/binary.BigEndian":
 		return OpaqueV{n}
 	}
+	if mt, ok := g.Type().Underlying().(*types.Pointer).Elem().Underlying().(*types.Map); ok {
+		// a package-level map built by a composite literal with constant string keys and constant values in the
+		// package initialiser, and never written afterwards (a store to a non-ghost global or a map update of it would
+		// be a tool error): a lookup table
+		if tbl, ok := globalMapTable(g, mt); ok {
+			return tbl
+		}
+	}
 	if et := g.Type().Underlying().(*types.Pointer).Elem(); isError(et) {
 		// package-level sentinel errors: a non-nil error. Created by errors.New in the package's init => an identity
 		// of its own ("private!"); initialised from another package's variable => that variable's identity.
@@ -2061,6 +2069,28 @@ func isIfaceNotErr(t types.Type) bool {
 
 func (e *Engine) mapLookup(st *State, fr *Frame, i *ssa.Lookup) Val {
 	x := e.get(st, fr, i.X)
+	if tbl, ok := x.(GlobalMapV); ok {
+		key, ok := e.get(st, fr, i.Index).(SliceV)
+		if !ok {
+			fail("lookup in a package-level table with a non-string key")
+		}
+		w := bvWidth(tbl.ValT)
+		val := BVu(0, w)
+		found := tFalse
+		for j := len(tbl.Keys) - 1; j >= 0; j-- {
+			lit := tbl.Keys[j]
+			c := Eq(key.Len, BVu(uint64(len(lit)), 64))
+			for k := 0; k < len(lit); k++ {
+				c = And(c, Eq(st.readByte(key, BVu(uint64(k), 64)), BVu(uint64(lit[k]), 8)))
+			}
+			val = Ite(c, BVu(tbl.Vals[j], w), val)
+			found = Or(found, c)
+		}
+		if i.CommaOk {
+			return TupleV{val, found}
+		}
+		return val
+	}
 	mv, ok := x.(MapV)
 	if !ok {
 		fail("lookup on %T", x)
@@ -2356,4 +2386,60 @@ func unflattenArgs(tpl []Val, ts []*Term) ([]Val, bool) {
 		out[k] = v
 	}
 	return out, i == len(ts)
+}
+
+// GlobalMapV: a package-level map[string]<integer type> that is a constant table (see loadGlobal).
+type GlobalMapV struct {
+	Keys []string
+	Vals []uint64
+	ValT types.Type
+}
+
+// globalMapTable reads the table out of the package initialiser: t = make(map...); t[k1] = v1; ...; *g = t, with
+// constant keys and values only.
+func globalMapTable(g *ssa.Global, mt *types.Map) (GlobalMapV, bool) {
+	if !isString(mt.Key()) || bvWidth(mt.Elem()) <= 0 {
+		return GlobalMapV{}, false
+	}
+	init := g.Pkg.Func("init")
+	if init == nil {
+		return GlobalMapV{}, false
+	}
+	var mk *ssa.MakeMap
+	for _, b := range init.Blocks {
+		for _, ins := range b.Instrs {
+			if sto, ok := ins.(*ssa.Store); ok && sto.Addr == ssa.Value(g) {
+				m, ok := sto.Val.(*ssa.MakeMap)
+				if !ok || mk != nil {
+					return GlobalMapV{}, false
+				}
+				mk = m
+			}
+		}
+	}
+	if mk == nil {
+		return GlobalMapV{}, false
+	}
+	out := GlobalMapV{ValT: mt.Elem()}
+	for _, ref := range *mk.Referrers() {
+		switch u := ref.(type) {
+		case *ssa.MapUpdate:
+			kc, ok1 := u.Key.(*ssa.Const)
+			vc, ok2 := u.Value.(*ssa.Const)
+			if !ok1 || !ok2 || kc.Value == nil || vc.Value == nil {
+				return GlobalMapV{}, false
+			}
+			v, _ := constant.Uint64Val(constant.ToInt(vc.Value))
+			out.Keys = append(out.Keys, constant.StringVal(kc.Value))
+			out.Vals = append(out.Vals, v)
+		case *ssa.Store:
+			if u.Addr != ssa.Value(g) {
+				return GlobalMapV{}, false
+			}
+		case *ssa.DebugRef:
+		default:
+			return GlobalMapV{}, false
+		}
+	}
+	return out, len(out.Keys) > 0
 }
